@@ -4,6 +4,10 @@ import json, os
 ROOT = os.path.dirname(os.path.dirname(os.path.abspath(__file__)))
 TRUST = "TLC 1.8 and the CommunityModules Json/IOUtils; the Rust harness (vh) that drives the public API of /repo's crates; rustc/cargo"
 CHECKS = {
+ "C18": ("DESIGN.md section 6 C18",
+         "FileTree.tla (path -> absent / dir / file(content) over a 6-path universe with explicit parent table; one Eff arm per command) evaluated on every consistent tree x every operation with sanity theorems (well-formed results, failing operations are no-ops, mv = cp ; rm); each of the ~23 000 cases is materialised in a fresh directory, the real command is run and the directory walked back and compared in full together with the output; random histories are validated step by step by TLC.",
+         "exhaustive over the small universe (single operations from every tree), sampled histories; permissions/symlinks/directory sources out of domain",
+         "TLA+ spec + TLC exhaustive case enumeration; spec->impl replay; impl->spec trace validation"),
  "C10": ("DESIGN.md section 6 C10",
          "OnError.tla (R-level fold over items; the spec renders items to lines and so owns the expected line/file of every failing instruction: top level, function body, loop body, branch, caller of a script-implemented command, included file; exit_on_error toggling) model-checked for LatestWins / StopsAtFirst on every item sequence; each sequence is run on the real SDK from file and from text and every get_last_error* observation, the output variable and the failing outcome (message, line, source) are compared; random 30-item sequences are validated by TLC.",
          "small-scope exhaustive on item sequences (<=3 quick, <=4 thorough), sampled beyond",
